@@ -1,3 +1,393 @@
+import PB.Model.Query
+import PB.Spec.Query
 import PB.Drv.Loop
-/- Driver stub for C11 (model not built yet): every op is rejected. -/
-def main : IO Unit := PB.Drv.lineLoop (fun _ => "bad-op")
+/-
+Driver for C11. Ops (mirrors harness/cmd/hx-c11/spec.go):
+  lex <hex>                       parse <hex> <oracle>
+  rt <hexprefix> <cond|-> <hexorderby> <limit> <offset> <oracle> <rm> <recs>
+  gs <gap> <word> <scond|-> <word|-> <hex|!> <hex|!> <0|1> <oracle>
+Strings are hex of UTF-8, "-" = empty, "!" = absent. Every malformed line and every table entry the
+model would need but was not given is answered loudly (`bad-op`, `oracle-missing`), never defaulted.
+-/
+namespace PB.Drv.C11
+open PB PB.Query
+
+abbrev L := List Char
+
+def splitOnC (sep : Char) : L → List L
+  | [] => [[]]
+  | c :: rest =>
+    if c = sep then [] :: splitOnC sep rest
+    else match splitOnC sep rest with
+      | [] => [[c]]
+      | h :: t => (c :: h) :: t
+
+def unhx (s : L) : Option Tok :=
+  if s = ['-'] then some [] else
+  match parseHexChars s with
+  | none => none
+  | some bs =>
+    if bs.isEmpty then none else
+    match String.fromUTF8? (ByteArray.mk bs.toArray) with
+    | none => none
+    | some str => some str.toList
+
+def hx (t : Tok) : String := toHex (String.ofList t).toUTF8.toList
+
+def natOf (s : L) : Option Nat := parseNat s
+
+def intOf (s : L) : Option Int :=
+  match s with
+  | '-' :: r => (parseNat r).map fun n => -(n : Int)
+  | _ => (parseNat s).map fun n => (n : Int)
+
+def hexNat (s : L) : Option Nat :=
+  s.foldl (fun acc c => match acc, hexVal c with
+    | some a, some v => some (a * 16 + v)
+    | _, _ => none) (some 0)
+
+/-! ### oracle and tables -/
+
+structure OEntry where
+  tok : Tok
+  fcanon : Option Tok
+  fbits : Option Nat
+  reok : Bool
+
+def parseOEntry (e : L) : Option OEntry :=
+  match splitOnC '=' e with
+  | [t, r] =>
+    match unhx t, splitOnC ':' r with
+    | some tok, [fc, fb, re] =>
+      let fcv : Option (Option Tok) := if fc = ['!'] then some none else (unhx fc).map some
+      let fbv : Option (Option Nat) := if fb = ['!'] then some none else (hexNat fb).map some
+      match fcv, fbv with
+      | some a, some b => if re = ['1'] then some ⟨tok, a, b, true⟩ else if re = ['0'] then some ⟨tok, a, b, false⟩ else none
+      | _, _ => none
+    | _, _ => none
+  | _ => none
+
+def parseOracle (f : L) : Option (List OEntry) :=
+  if f = ['~'] then some [] else (splitOnC ';' f).mapM parseOEntry
+
+def parseRm (f : L) : Option (List (Tok × Tok × Bool)) :=
+  if f = ['~'] then some [] else
+  (splitOnC ';' f).mapM fun e =>
+    match splitOnC '=' e with
+    | [r, s, b] =>
+      match unhx r, unhx s with
+      | some r', some s' => if b = ['1'] then some (r', s', true) else if b = ['0'] then some (r', s', false) else none
+      | _, _ => none
+    | _ => none
+
+def mkOracle (es : List OEntry) (rm : List (Tok × Tok × Bool)) : Oracle where
+  fcanon t := match es.find? (·.tok = t) with | some e => e.fcanon | none => none
+  reok t := match es.find? (·.tok = t) with | some e => e.reok | none => false
+  fbits t := match es.find? (·.tok = t) with | some e => e.fbits.getD 0 | none => 0
+  rematch r s := match rm.find? (fun e => e.1 = r ∧ e.2.1 = s) with | some e => e.2.2 | none => false
+
+def known (es : List OEntry) (t : Tok) : Bool := es.any (·.tok = t)
+
+structure TEntry where
+  key : Tok
+  i : Option Int
+  s : Option Tok
+  b : Option Bool
+  f : Option Nat
+  e : Bool
+
+def optField {α} (f : L) (p : L → Option α) : Option (Option α) :=
+  if f = ['!'] then some none else (p f).map some
+
+def parseTEntry (e : L) : Option TEntry :=
+  match splitOnC '=' e with
+  | [k, r] =>
+    match unhx k, splitOnC ':' r with
+    | some key, [i, s, b, f, ex] =>
+      match optField i intOf, optField s unhx, optField b (fun x => if x = ['1'] then some true else if x = ['0'] then some false else none),
+            optField f hexNat with
+      | some iv, some sv, some bv, some fv =>
+        if ex = ['1'] then some ⟨key, iv, sv, bv, fv, true⟩ else if ex = ['0'] then some ⟨key, iv, sv, bv, fv, false⟩ else none
+      | _, _, _, _ => none
+    | _, _ => none
+  | _ => none
+
+def parseTable (f : L) : Option (List TEntry) :=
+  if f = ['~'] then some [] else (splitOnC ';' f).mapM parseTEntry
+
+def mkRec (t : List TEntry) : Rec where
+  getInt k := (t.find? (·.key = k)).bind (·.i)
+  getStr k := (t.find? (·.key = k)).bind (·.s)
+  getBool k := (t.find? (·.key = k)).bind (·.b)
+  getFloat k := (t.find? (·.key = k)).bind (·.f)
+  has k := match t.find? (·.key = k) with | some e => e.e | none => false
+
+/-- records field: `~` or `<hexjson>/<table>/<table>|…` → the accessor tables in order (JSON form, struct form). -/
+def parseRecs (f : L) : Option (List (List TEntry)) :=
+  if f = ['~'] then some [] else
+  (splitOnC '|' f).foldr (fun r acc =>
+    match acc, splitOnC '/' r with
+    | some a, [_, t1, t2] =>
+      match parseTable t1, parseTable t2 with
+      | some x, some y => some (x :: y :: a)
+      | _, _ => none
+    | _, _ => none) (some [])
+
+/-! ### API trees -/
+
+def parseArg (s : L) : Option Arg :=
+  match s with
+  | 'i' :: r => (intOf r).map .int
+  | 'u' :: r => (natOf r).map .uint
+  | 'f' :: r => match splitOnC ':' r with
+    | [_, t] => (unhx t).map .float
+    | _ => none
+  | ['b', '1'] => some (.bool true)
+  | ['b', '0'] => some (.bool false)
+  | 's' :: r => (unhx r).map .str
+  | 'l' :: r => if r = [] then some (.strs []) else ((splitOnC ';' r).mapM unhx).map .strs
+  | ['n'] => some .nil
+  | ['z'] => some .other
+  | _ => none
+
+/-- API tree before `Where` is applied. -/
+inductive Tree where
+  | w (key : Tok) (op : Nat) (a : Arg)
+  | and (l : List Tree) | or (l : List Tree) | not (t : Tree)
+
+def untilAny (stops : L) : L → L × L
+  | [] => ([], [])
+  | c :: r => if stops.contains c then ([], c :: r) else let (a, b) := untilAny stops r; (c :: a, b)
+
+mutual
+partial def pTree : L → Option (Tree × L)
+  | 'W' :: '(' :: r =>
+    let (k, r1) := untilAny [','] r
+    let (o, r2) := untilAny [','] (r1.drop 1)
+    let (a, r3) := untilAny [')'] (r2.drop 1)
+    match unhx k, natOf o, parseArg a, r3 with
+    | some key, some op, some arg, ')' :: r4 => some (.w key op arg, r4)
+    | _, _, _, _ => none
+  | 'N' :: '[' :: r => match pTree r with
+    | some (t, ']' :: r') => some (.not t, r')
+    | _ => none
+  | 'A' :: '[' :: r => (pTrees r).map fun (l, r') => (.and l, r')
+  | 'O' :: '[' :: r => (pTrees r).map fun (l, r') => (.or l, r')
+  | _ => none
+partial def pTrees : L → Option (List Tree × L)
+  | ']' :: r => some ([], r)
+  | s => match pTree s with
+    | some (t, ';' :: r) => match pTrees r with
+      | some (l, r') => if l.isEmpty then none else some (t :: l, r')
+      | none => none
+    | some (t, ']' :: r) => some ([t], r)
+    | _ => none
+end
+
+instance : Inhabited Cond := ⟨.bad .operator⟩
+
+partial def Tree.cond (O : Oracle) : Tree → Cond
+  | .w k op a => mkWhere O k op a
+  | .and l => .and (l.map (Tree.cond O))
+  | .or l => .or (l.map (Tree.cond O))
+  | .not t => .not (t.cond O)
+
+partial def Tree.tokens : Tree → List Tok
+  | .w _ _ a => match a with
+    | .str s => [s]
+    | .float t => [t]
+    | .int i => [showInt i]
+    | .uint n => [showNat n]
+    | _ => []
+  | .and l => (l.map Tree.tokens).flatten
+  | .or l => (l.map Tree.tokens).flatten
+  | .not t => t.tokens
+
+/-! ### canonical dump (mirror of `VerifDump`) -/
+
+partial def dumpCond : Cond → String
+  | .and cs => "A[" ++ ";".intercalate (cs.map dumpCond) ++ "]"
+  | .or cs => "O[" ++ ";".intercalate (cs.map dumpCond) ++ "]"
+  | .not c => "N[" ++ dumpCond c ++ "]"
+  | .bad e => "X(" ++ e.str ++ ")"
+  | .leaf k op v => match v with
+    | .int i => s!"I({hx k},{op},{i})"
+    | .float t => s!"F({hx k},{op},{hx t})"
+    | .str s => s!"S({hx k},{op},{hx s})"
+    | .strs l => s!"L({hx k},{op},{";".intercalate (l.map hx)})"
+    | .regex t => s!"R({hx k},{op},{hx t})"
+    | .bool b => s!"B({hx k},{op},{if b then 1 else 0})"
+    | .none => s!"E({hx k},{op})"
+
+def dumpQuery (q : Query) : String :=
+  let w := match q.where_ with | none => "-" | some c => dumpCond c
+  s!"Q({hx q.dbName},{hx q.dbKeyPrefix},{w},{hx q.orderBy},{q.limit},{q.offset},1)"
+
+/-! ### what the model is going to look up -/
+
+partial def condLeaves : Cond → List (Tok × Nat × Val)
+  | .leaf k op v => [(k, op, v)]
+  | .bad _ => []
+  | .and cs => (cs.map condLeaves).flatten
+  | .or cs => (cs.map condLeaves).flatten
+  | .not c => condLeaves c
+
+def tablesCover (es : List OEntry) (rm : List (Tok × Tok × Bool)) (tabs : List (List TEntry)) (c : Option Cond) : Bool :=
+  match c with
+  | none => true
+  | some c =>
+    (condLeaves c).all fun (k, _, v) =>
+      tabs.all (fun t => t.any (·.key = k)) &&
+      (match v with
+       | .float t => (es.find? (·.tok = t)).any (·.fbits.isSome)
+       | .regex t => tabs.all fun tab => match (mkRec tab).getStr k with
+         | none => true
+         | some s => rm.any fun e => e.1 = t ∧ e.2.1 = s
+       | _ => true)
+
+def matchBits (O : Oracle) (q : Query) (tabs : List (List TEntry)) : String :=
+  if tabs.isEmpty then "~" else
+  String.ofList (tabs.map fun t => if q.matchesRec O (mkRec t) then '1' else '0')
+
+def parseOut (O : Oracle) (es : List OEntry) (text : L) : String :=
+  match lex text with
+  | .error e => "err " ++ e.str
+  | .ok toks =>
+    if !toks.all (known es) then "oracle-missing" else
+    match parseToks O toks with
+    | .error e => "err " ++ e.str
+    | .ok q =>
+      -- the parsed query's own round trip
+      let p := q.print
+      match lex p with
+      | .error e => s!"ok {dumpQuery q} {hx p} err:{e.str}"
+      | .ok toks2 =>
+        if !toks2.all (known es) then "oracle-missing" else
+        match parseToks O toks2 with
+        | .error e => s!"ok {dumpQuery q} {hx p} err:{e.str}"
+        | .ok q2 => if q2.print = p then s!"ok {dumpQuery q} {hx p} same" else s!"ok {dumpQuery q} {hx p} diff:{hx q2.print}"
+
+/-! ### sentences -/
+
+def gapOf (s : L) : Option L :=
+  if s = ['e'] then some [] else
+  s.mapM fun c => if c = 's' then some ' ' else if c = 't' then some '\t' else if c = 'n' then some '\n' else if c = 'r' then some '\r' else none
+
+def wordOf (s : L) : Option Word :=
+  match s with
+  | 'r' :: r => (unhx r).map (⟨.raw, ·⟩)
+  | 'q' :: r => (unhx r).map (⟨.quoted, ·⟩)
+  | 'b' :: r => (unhx r).map (⟨.bslash, ·⟩)
+  | _ => none
+
+mutual
+partial def pS : L → Option (SCond × L)
+  | 'W' :: '(' :: r =>
+    let (g, r1) := untilAny [','] r
+    let (k, r2) := untilAny [','] (r1.drop 1)
+    let (o, r3) := untilAny [','] (r2.drop 1)
+    let (n, r4) := untilAny [','] (r3.drop 1)
+    let (v, r5) := untilAny [')'] (r4.drop 1)
+    let val : Option (Option Word) := if v = ['!'] then some none else (wordOf v).map some
+    match gapOf g, wordOf k, unhx o, natOf n, val, r5 with
+    | some gap, some key, some opn, some neg, some vv, ')' :: r6 =>
+      if gap.isEmpty || neg > 2 then none else some (.clause gap key opn neg vv, r6)
+    | _, _, _, _, _, _ => none
+  | c :: '(' :: r =>
+    if c ≠ 'A' ∧ c ≠ 'O' then none else
+    let (g, r1) := untilAny [','] r
+    let (p, r2) := untilAny [','] (r1.drop 1)
+    let (ng, r2') := untilAny [','] (r2.drop 1)
+    let (n, r3) := untilAny [')'] (r2'.drop 1)
+    match gapOf g, gapOf p, gapOf ng, r3 with
+    | some gap, some pgap, some ngap, ')' :: '[' :: r4 =>
+      if gap.isEmpty || (n ≠ ['0'] ∧ n ≠ ['1']) then none else
+      match pSs r4 with
+      | some (kids, r5) => some (.group (c = 'O') gap pgap ngap (n = ['1']) kids, r5)
+      | none => none
+    | _, _, _, _ => none
+  | _ => none
+partial def pSs : L → Option (List SCond × L)
+  | s => match pS s with
+    | some (t, ';' :: r) => match pSs r with
+      | some (l, r') => some (t :: l, r')
+      | none => none
+    | some (t, ']' :: r) => some ([t], r)
+    | _ => none
+end
+
+def optHexTok (s : L) : Option (Option Tok) := if s = ['!'] then some none else (unhx s).map some
+
+def parseSentence (f : List L) : Option Sentence :=
+  match f with
+  | [g, p, w, ob, lim, off, st] =>
+    let wv : Option (Option SCond) := if w = ['-'] then some none else
+      match pS w with | some (c, []) => some (some c) | _ => none
+    let obv : Option (Option Word) := if ob = ['-'] then some none else (wordOf ob).map some
+    match gapOf g, wordOf p, wv, obv, optHexTok lim, optHexTok off with
+    | some gap, some pw, some wc, some obw, some l, some o =>
+      if gap.isEmpty || (st ≠ ['0'] ∧ st ≠ ['1']) then none
+      else some ⟨gap, pw, wc, obw, l, o, st = ['1']⟩
+    | _, _, _, _, _, _ => none
+  | _ => none
+
+partial def scondWords : SCond → List Tok
+  | .clause _ _ _ _ v => match v with | some w => [w.text] | none => []
+  | .group _ _ _ _ _ kids => (kids.map scondWords).flatten
+
+/-! ### ops -/
+
+def handle (line : String) : String :=
+  match splitOnC ' ' line.toList with
+  | [['l','e','x'], h] =>
+    match unhx h with
+    | none => "bad-op"
+    | some text => match lex text with
+      | .error e => "err " ++ e.str
+      | .ok toks => if toks.isEmpty then "ok 0" else s!"ok {toks.length} {",".intercalate (toks.map hx)}"
+  | [['p','a','r','s','e'], h, o] =>
+    match unhx h, parseOracle o with
+    | some text, some es => parseOut (mkOracle es []) es text
+    | _, _ => "bad-op"
+  | [['r','t'], p, c0, ob, lim, off, o, rm, recs] =>
+    -- "C:" = the query object was checked once before the condition was set: no effect on a fresh Check
+    let c := match c0 with | 'C' :: ':' :: r => r | _ => c0
+    let tree : Option (Option Tree) := if c = ['-'] then some none else
+      match pTree c with | some (t, []) => some (some t) | _ => none
+    match unhx p, tree, unhx ob, intOf lim, intOf off, parseOracle o, parseRm rm, parseRecs recs with
+    | some pfx, some tr, some orderBy, some limit, some offset, some es, some rms, some tabs =>
+      let O := mkOracle es rms
+      if !(match tr with | none => true | some t => t.tokens.all (known es)) then "oracle-missing" else
+      let q : Query := { Query.new pfx with where_ := tr.map (Tree.cond O), orderBy := orderBy, limit := limit, offset := offset }
+      match q.check with
+      | .error e => "err " ++ e.str
+      | .ok q =>
+        let p1 := q.print
+        if !tablesCover es rms tabs q.where_ then "oracle-missing" else
+        let m1 := matchBits O q tabs
+        match lex p1 with
+        | .error e => s!"ok {dumpQuery q} {hx p1} err {e.str} {m1}"
+        | .ok toks =>
+          if !toks.all (known es) then "oracle-missing" else
+          match parseToks O toks with
+          | .error e => s!"ok {dumpQuery q} {hx p1} err {e.str} {m1}"
+          | .ok q2 =>
+            if !tablesCover es rms tabs q2.where_ then "oracle-missing" else
+            s!"ok {dumpQuery q} {hx p1} ok {dumpQuery q2} {hx q2.print} {m1} {matchBits O q2 tabs}"
+    | _, _, _, _, _, _, _, _ => "bad-op"
+  | ['g','s'] :: rest =>
+    match rest with
+    | [g, p, w, ob, lim, off, st, o] =>
+      match parseSentence [g, p, w, ob, lim, off, st], parseOracle o with
+      | some s, some es =>
+        let words := match s.where_ with | none => [] | some c => scondWords c
+        if !words.all (known es) then "oracle-missing" else
+        let text := s.render
+        hx text ++ " " ++ parseOut (mkOracle es []) es text
+      | _, _ => "bad-op"
+    | _ => "bad-op"
+  | _ => "bad-op"
+
+end PB.Drv.C11
+
+def main : IO Unit := PB.Drv.lineLoop PB.Drv.C11.handle
